@@ -19,14 +19,16 @@ import (
 )
 
 type c05Node struct {
-	name     string // raw qualified name
+	raw      string // qualified name exactly as written (for the nesting check)
+	name     string // qualified name, svg: prefix normalised away
 	attrs    [][2]string
 	children []*c05Node
 	text     string // for text nodes (name == "")
 }
 
+// raw qualified name; the `svg:` prefix (elements of the SVG namespace written with a prefix) is normalised away
 func c05QName(n xml.Name) string {
-	if n.Space != "" {
+	if n.Space != "" && n.Space != "svg" {
 		return n.Space + ":" + n.Local
 	}
 	return n.Local
@@ -49,14 +51,17 @@ func c05ParseXML(s string) (*c05Node, error) {
 		top := stack[len(stack)-1]
 		switch v := t.(type) {
 		case xml.StartElement:
-			n := &c05Node{name: c05QName(v.Name)}
+			n := &c05Node{name: c05QName(v.Name), raw: v.Name.Space + ":" + v.Name.Local}
 			for _, a := range v.Attr {
+				if a.Name.Space == "xmlns" {
+					continue // namespace declarations of prefixes are compared through the names that use them
+				}
 				n.attrs = append(n.attrs, [2]string{c05QName(a.Name), a.Value})
 			}
 			top.children = append(top.children, n)
 			stack = append(stack, n)
 		case xml.EndElement:
-			if len(stack) == 1 || top.name != c05QName(v.Name) {
+			if len(stack) == 1 || top.raw != v.Name.Space+":"+v.Name.Local {
 				return nil, fmt.Errorf("end tag </%s> does not match <%s>", c05QName(v.Name), top.name)
 			}
 			stack = stack[:len(stack)-1]
@@ -361,7 +366,7 @@ func c05GenAttrs(r *h.RNG, el string, depth int, sb *strings.Builder, isRoot boo
 		put("d", c05PathPool[r.Intn(len(c05PathPool))])
 	}
 	for i := 0; i < n; i++ {
-		switch r.Intn(12) {
+		switch r.Intn(14) {
 		case 0:
 			put("id", r.Pick([]string{"a", "b1", "layer_1", "x-y"}))
 		case 1:
@@ -388,6 +393,10 @@ func c05GenAttrs(r *h.RNG, el string, depth int, sb *strings.Builder, isRoot boo
 			put("fill-rule", "evenodd")
 		case 11:
 			put("data-x", r.Pick([]string{"a&amp;b", "a&lt;b", "it's", "say &quot;x&quot;", "1.50"}))
+		case 12:
+			put(r.Pick([]string{"xlink:href", "xml:lang", "xml:space", "xlink:title"}), r.Pick([]string{"#a", "en", "preserve", "default", "1.50"}))
+		case 13:
+			put(r.Pick([]string{"id", "class", "href", "font-family"}), r.Pick([]string{"1.50", "1.0", "010", "1e1", "+5"}))
 		}
 	}
 }
@@ -485,6 +494,20 @@ func c05Docs(c *Ctx) error {
 			if vd := c05DecodeHolds(rep[i]); vd.err == "" && vd.validIn && vd.hazards == "" {
 				c05PathPool = append(c05PathPool, d)
 			}
+		}
+	}
+	// former known findings K-C05-1, 6, 9 (fixed in /repo) must pass
+	for _, doc := range []string{
+		`<svg xmlns:xlink="http://www.w3.org/1999/xlink"><use xlink:href="#a"/><text xml:space="preserve"> a </text></svg>`,
+		`<svg:svg xmlns:svg="http://www.w3.org/2000/svg"><svg:g></svg:g><svg:rect width="1.0"/></svg:svg>`,
+		`<svg><g id="1.50" class="1.0"/><a href="#1.50"/></svg>`,
+	} {
+		out, err, crash := c05MinifyDoc(doc, false)
+		st.Count(h.Q([]byte(doc)), true)
+		if crash != "" || err != nil {
+			c.R.Add(h.Finding{Stage: st.Name, Kind: "crash", What: fmt.Sprint(crash, err), Input: h.Q([]byte(doc))})
+		} else if d := c05CheckDoc(doc, out, false); d != "" {
+			c.R.Add(h.Finding{Stage: st.Name, Kind: "fail", What: "regression document (fixed finding): " + d, Input: h.Q([]byte(doc)), Impl: h.Q([]byte(out))})
 		}
 	}
 	for i := 0; i < n; i++ {
